@@ -67,7 +67,7 @@ def generate(rng, tier):
         r = rng.random()
         if r < 0.45:
             ops.append({"op": "add", "name": rng.choice(names), "src": rng.choice(KINDS), "ndim": rng.choice([1, 2, 3, 3]),
-                        "mixed": rng.random() < 0.4})
+                        "mixed": rng.random() < 0.4, "mixed_none": rng.random() < 0.02})
         elif r < 0.62:
             ops.append({"op": "remove", "name": rng.choice(names)})
         elif r < 0.7:
@@ -124,7 +124,7 @@ def execute(sc, ctx):
             ctx.check(len(col) == n, "column-length", f"{where}: {name}")
             for i in range(n):
                 got = col[i]
-                ctx.check(_same(got, rec["vals"][i]), "cell-value",
+                ctx.check(_same(got, rec["vals"][i]), "cell-value", finding="F12" if rec.get("f12") else None, detail=
                           lambda: f"{where}: component {name!r} ({rec['kind']}) cell id {i} at {cells[i]} holds {got!r}, "
                                   f"its source assigns {rec['vals'][i]!r}")
         if W > 0 and H > 0 and D > 0 and live:
@@ -149,6 +149,11 @@ def execute(sc, ctx):
                 vals = [enc(serial, p) for p in cells]
             elif src == "list":
                 buf = [enc(serial, (i, 0, 0)) for i in range(n)]
+                if op.get("mixed_none") and n >= 2:
+                    buf[0] = None                     # trigger of known finding F12 (rare on purpose)
+                    buf[1] = 2 ** 53 + 1 if n > 2 else 0.5
+                    if n > 2:
+                        buf[2] = 0.5
                 gen, vals = buf, list(buf)
             elif src == "ndarray_int":
                 buf = np.array([enc(serial, (0, i, 0)) for i in range(n)], dtype=np.int64)
@@ -239,6 +244,7 @@ def execute(sc, ctx):
                 ctx.probe("readd_live_name_overwrites")
             else:
                 live[name] = {"vals": vals, "kind": src, "buf": buf}
+            live[name]["f12"] = bool(src == "list" and op.get("mixed_none") and n >= 2)
             ctx.probe("src_" + src)
             if name in removed:
                 ctx.probe("readd_removed_name")
